@@ -203,135 +203,177 @@ func c07Route(args []string) error {
 			rc.Kind = "switch"
 		}
 		src := fmt.Sprintf("%s#%d", *in, i)
-		resetGenerators(1)
-		// tests such as has_date read the clock: it must show the same time to the engine and to callTest
-		dates.SetNowFunc(dates.NewFixedNow(time.Date(2018, 7, 6, 12, 30, 0, 123456789, time.UTC)))
-		line := &RLine{Src: src, Kind: rc.Kind, Cats: []int{}, Outs: []ROut{}, Dflt: rc.Dflt, Op: rc.Op, Rn: rc.Rn, CatExit: []int{}, ToCat: rc.ToCat, Num: rc.Num, Den: rc.Den}
-		if line.Den == 0 {
-			line.Den = 1
-		}
-		ncats := rc.NCats
-		if rc.Kind != "switch" {
-			ncats = rc.N
-		}
-		node := M{"uuid": nodeUUID(1, 1), "actions": []M{}}
-		cats := []M{}
-		dests := []int{}
-		for c := 1; c <= ncats; c++ {
-			cats = append(cats, M{"uuid": catUUID(1, 1, c), "name": fmt.Sprintf("C%d", c), "exit_uuid": exitUUID(1, 1, c)})
-			line.CatExit = append(line.CatExit, c)
-			dests = append(dests, 2)
-		}
-		node["exits"] = exitsFor(1, 1, dests...)
-		loc := M{}
-		lang := "eng"
-		if rc.Fra {
-			lang = "fra"
-		}
-		resume := ""
-		type pendingTest struct {
-			ty   string
-			args []string
-		}
-		var pending []pendingTest
-		switch rc.Kind {
-		case "switch":
-			cs := []M{}
-			fraItems := M{}
-			for j, c := range rc.Cases {
-				var ty string
-				var a []string
-				if c.Type != "" {
-					ty, a = c.Type, c.Args
-				} else {
-					ty, a = testDef(c.T)
-				}
-				cs = append(cs, M{"uuid": caseUUID(1, 1, j+1), "type": ty, "arguments": a, "category_uuid": catUUID(1, 1, c.Cat)})
-				eff := a
-				if c.Tr {
-					fraItems[caseUUID(1, 1, j+1)] = M{"arguments": swapAB(a)}
-					if rc.Fra {
-						eff = swapAB(a)
+		// second = the node is visited twice in one run (a second node sends the run back once) with operands that differ
+		// only by a trailing space: the result saved by the second visit must carry the second operand
+		runOne := func(second bool) error {
+			op := rc.Op
+			if second {
+				src += "/second"
+				op = rc.Op + " "
+			}
+			resetGenerators(1)
+			// tests such as has_date read the clock: it must show the same time to the engine and to callTest
+			dates.SetNowFunc(dates.NewFixedNow(time.Date(2018, 7, 6, 12, 30, 0, 123456789, time.UTC)))
+			line := &RLine{Src: src, Kind: rc.Kind, Cats: []int{}, Outs: []ROut{}, Dflt: rc.Dflt, Op: op, Rn: rc.Rn, CatExit: []int{}, ToCat: rc.ToCat, Num: rc.Num, Den: rc.Den}
+			if line.Den == 0 {
+				line.Den = 1
+			}
+			ncats := rc.NCats
+			if rc.Kind != "switch" {
+				ncats = rc.N
+			}
+			node := M{"uuid": nodeUUID(1, 1), "actions": []M{}}
+			cats := []M{}
+			dests := []int{}
+			for c := 1; c <= ncats; c++ {
+				cats = append(cats, M{"uuid": catUUID(1, 1, c), "name": fmt.Sprintf("C%d", c), "exit_uuid": exitUUID(1, 1, c)})
+				line.CatExit = append(line.CatExit, c)
+				dests = append(dests, 2)
+			}
+			node["exits"] = exitsFor(1, 1, dests...)
+			loc := M{}
+			lang := "eng"
+			if rc.Fra {
+				lang = "fra"
+			}
+			resume := ""
+			type pendingTest struct {
+				ty   string
+				args []string
+			}
+			var pending []pendingTest
+			switch rc.Kind {
+			case "switch":
+				cs := []M{}
+				fraItems := M{}
+				for j, c := range rc.Cases {
+					var ty string
+					var a []string
+					if c.Type != "" {
+						ty, a = c.Type, c.Args
+					} else {
+						ty, a = testDef(c.T)
 					}
+					cs = append(cs, M{"uuid": caseUUID(1, 1, j+1), "type": ty, "arguments": a, "category_uuid": catUUID(1, 1, c.Cat)})
+					eff := a
+					if c.Tr {
+						fraItems[caseUUID(1, 1, j+1)] = M{"arguments": swapAB(a)}
+						if rc.Fra {
+							eff = swapAB(a)
+						}
+					}
+					line.Cats = append(line.Cats, c.Cat)
+					pending = append(pending, pendingTest{ty, eff})
 				}
-				line.Cats = append(line.Cats, c.Cat)
-				pending = append(pending, pendingTest{ty, eff})
-			}
-			if len(fraItems) > 0 {
-				loc["fra"] = fraItems
-			}
-			r := M{"type": "switch", "operand": "@trigger.params.op", "cases": cs, "categories": cats}
-			if rc.Dflt != 0 {
-				r["default_category_uuid"] = catUUID(1, 1, rc.Dflt)
-			}
-			if rc.Rn {
+				if len(fraItems) > 0 {
+					loc["fra"] = fraItems
+				}
+				r := M{"type": "switch", "operand": "@trigger.params.op", "cases": cs, "categories": cats}
+				if second {
+					r["operand"] = "@(if(node.visit_count = 1, trigger.params.op, trigger.params.op2))"
+				}
+				if rc.Dflt != 0 {
+					r["default_category_uuid"] = catUUID(1, 1, rc.Dflt)
+				}
+				if rc.Rn {
+					r["result_name"] = "res"
+				}
+				node["router"] = r
+			case "random":
+				line.Rn = true
+				node["router"] = M{"type": "random", "categories": cats, "result_name": "res"}
+				v := int64(math.Round(float64(rc.Num) / float64(rc.Den) * float64(1<<53)))
+				random.SetGenerator(rand.New(&fixedSource{v: v << 10}))
+			case "timeout":
+				line.Rn = true
+				r := switchRouter(1, 1, "@input.text", true, false)
+				r["categories"] = cats
+				r["default_category_uuid"] = catUUID(1, 1, 1)
+				r["cases"] = []M{}
+				r["wait"] = M{"type": "msg", "timeout": M{"seconds": 60, "category_uuid": catUUID(1, 1, rc.ToCat)}}
 				r["result_name"] = "res"
+				node["router"] = r
+				resume = "timeout"
+			case "norouter":
+				line.Rn = false
 			}
-			node["router"] = r
-		case "random":
-			line.Rn = true
-			node["router"] = M{"type": "random", "categories": cats, "result_name": "res"}
-			v := int64(math.Round(float64(rc.Num) / float64(rc.Den) * float64(1<<53)))
-			random.SetGenerator(rand.New(&fixedSource{v: v << 10}))
-		case "timeout":
-			line.Rn = true
-			r := switchRouter(1, 1, "@input.text", true, false)
-			r["categories"] = cats
-			r["default_category_uuid"] = catUUID(1, 1, 1)
-			r["cases"] = []M{}
-			r["wait"] = M{"type": "msg", "timeout": M{"seconds": 60, "category_uuid": catUUID(1, 1, rc.ToCat)}}
-			r["result_name"] = "res"
-			node["router"] = r
-			resume = "timeout"
-		case "norouter":
-			line.Rn = false
-		}
-		node2 := M{"uuid": nodeUUID(1, 2), "actions": []M{}, "exits": exitsFor(1, 2, 0)}
-		flow := M{"uuid": flowUUID(1), "name": "Flow 1", "spec_version": "13.6.0", "language": "eng", "type": "messaging", "nodes": []M{node, node2}, "localization": loc}
-		sa, err := loadAssets(mustJSON(M{"flows": []M{flow}}))
-		if err != nil {
-			errs = append(errs, src+": "+err.Error())
-			return nil
-		}
-		c := contactJSON()
-		c["language"] = lang
-		t := M{"type": "manual", "flow": M{"uuid": flowUUID(1), "name": "Flow 1"}, "contact": c, "params": M{"op": rc.Op}, "triggered_on": "2018-07-06T12:00:00Z",
-			"environment": M{"allowed_languages": []string{"eng", "fra"}, "date_format": "YYYY-MM-DD", "time_format": "tt:mm", "timezone": "UTC"}}
-		trig, err := readTrigger(sa, mustJSON(t))
-		if err != nil {
-			errs = append(errs, src+": "+err.Error())
-			return nil
-		}
-		eng := newEngine(0, -1)
-		s, sp, err := eng.NewSession(sa, trig)
-		if err != nil {
-			errs = append(errs, src+": "+err.Error())
-			return nil
-		}
-		if resume != "" {
-			res, _ := readResume(sa, resumeJSON(resume, "", 1))
-			sp, err = s.Resume(res)
+			node2 := M{"uuid": nodeUUID(1, 2), "actions": []M{}, "exits": exitsFor(1, 2, 0)}
+			if second {
+				node2["router"] = M{"type": "switch", "operand": "@node.visit_count", "default_category_uuid": catUUID(1, 2, 2),
+					"cases":      []M{{"uuid": caseUUID(1, 2, 1), "type": "has_number_eq", "arguments": []string{"1"}, "category_uuid": catUUID(1, 2, 1)}},
+					"categories": []M{{"uuid": catUUID(1, 2, 1), "name": "Again", "exit_uuid": exitUUID(1, 2, 1)}, {"uuid": catUUID(1, 2, 2), "name": "Done", "exit_uuid": exitUUID(1, 2, 2)}}}
+				node2["exits"] = exitsFor(1, 2, 1, 0)
+			}
+			flow := M{"uuid": flowUUID(1), "name": "Flow 1", "spec_version": "13.6.0", "language": "eng", "type": "messaging", "nodes": []M{node, node2}, "localization": loc}
+			sa, err := loadAssets(mustJSON(M{"flows": []M{flow}}))
 			if err != nil {
 				errs = append(errs, src+": "+err.Error())
 				return nil
 			}
-		}
-		n++
-		// the outcome of each case's test, in the environment the run evaluates in
-		for j, pt := range pending {
-			o := callTest(s.MergedEnvironment(), pt.ty, rc.Op, pt.args)
-			line.Outs = append(line.Outs, o)
-			if j < len(rc.Outs) && (rc.Outs[j].M != o.M || rc.Outs[j].V != o.V) {
-				drift++
-				if len(driftEx) < 5 {
-					driftEx = append(driftEx, fmt.Sprintf("%s: test %s on %q: model %v real %v", src, pt.ty, rc.Op, rc.Outs[j], o))
+			c := contactJSON()
+			c["language"] = lang
+			t := M{"type": "manual", "flow": M{"uuid": flowUUID(1), "name": "Flow 1"}, "contact": c, "params": M{"op": rc.Op, "op2": rc.Op + " "}, "triggered_on": "2018-07-06T12:00:00Z",
+				"environment": M{"allowed_languages": []string{"eng", "fra"}, "date_format": "YYYY-MM-DD", "time_format": "tt:mm", "timezone": "UTC"}}
+			trig, err := readTrigger(sa, mustJSON(t))
+			if err != nil {
+				errs = append(errs, src+": "+err.Error())
+				return nil
+			}
+			eng := newEngine(0, -1)
+			s, sp, err := eng.NewSession(sa, trig)
+			if err != nil {
+				errs = append(errs, src+": "+err.Error())
+				return nil
+			}
+			if resume != "" {
+				res, _ := readResume(sa, resumeJSON(resume, "", 1))
+				sp, err = s.Resume(res)
+				if err != nil {
+					errs = append(errs, src+": "+err.Error())
+					return nil
 				}
 			}
+			n++
+			// the outcome of each case's test, in the environment the run evaluates in
+			for j, pt := range pending {
+				o := callTest(s.MergedEnvironment(), pt.ty, op, pt.args)
+				line.Outs = append(line.Outs, o)
+				if !second && j < len(rc.Outs) && (rc.Outs[j].M != o.M || rc.Outs[j].V != o.V) {
+					drift++
+					if len(driftEx) < 5 {
+						driftEx = append(driftEx, fmt.Sprintf("%s: test %s on %q: model %v real %v", src, pt.ty, rc.Op, rc.Outs[j], o))
+					}
+				}
+			}
+			run := s.Runs()[0]
+			visit := 1
+			if second {
+				visit = 2
+			}
+			if second {
+				twice := 0
+				for _, st := range run.Path() {
+					if string(st.NodeUUID()) == nodeUUID(1, 1) {
+						twice++
+					}
+				}
+				if twice < 2 || run.Status() == flows.RunStatusFailed {
+					// the first visit ended the run, or the second one found no category: what is saved is the first
+					// visit's result and there is no second save to judge
+					return nil
+				}
+			}
+			line.Obs = observeRouting(run, sp, 1, 1, ncats, visit)
+			line.Desc = string(mustJSON(rc))
+			lw.write(src, line, func(v string) { line.Src = v })
+			return nil
 		}
-		run := s.Runs()[0]
-		line.Obs = observeRouting(run, sp, 1, 1, ncats)
-		line.Desc = string(mustJSON(rc))
-		lw.write(src, line, func(v string) { line.Src = v })
+		if err := runOne(false); err != nil {
+			return err
+		}
+		if rc.Kind == "switch" && rc.Rn {
+			return runOne(true)
+		}
 		return nil
 	})
 	if err != nil {
@@ -343,10 +385,19 @@ func c07Route(args []string) error {
 }
 
 // observeRouting reads off what the engine did on the first step of the run (generated flow: node (f,n) with ncats categories)
-func observeRouting(run flows.Run, sp flows.Sprint, f, n, ncats int) RObs {
+func observeRouting(run flows.Run, sp flows.Sprint, f, n, ncats int, visit int) RObs {
 	o := RObs{Failed: run.Status() == flows.RunStatusFailed}
-	if len(run.Path()) > 0 {
-		eu := string(run.Path()[0].ExitUUID())
+	idx, seen := -1, 0
+	for k, st := range run.Path() {
+		if string(st.NodeUUID()) == nodeUUID(f, n) {
+			seen++
+			if seen == visit {
+				idx = k
+			}
+		}
+	}
+	if idx >= 0 {
+		eu := string(run.Path()[idx].ExitUUID())
 		for e := 1; e <= ncats+1; e++ {
 			if eu == exitUUID(f, n, e) {
 				o.Exit = e
@@ -361,8 +412,13 @@ func observeRouting(run flows.Run, sp flows.Sprint, f, n, ncats int) RObs {
 		o.Value, o.Input = r.Value, r.Input
 		fmt.Sscanf(strings.TrimPrefix(r.Category, "C"), "%d", &o.Cat)
 	}
+	segSeen := 0
 	for _, sg := range sp.Segments() {
-		if sg.Flow().UUID() == run.Flow().UUID() {
+		if sg.Flow().UUID() == run.Flow().UUID() && string(sg.Node().UUID()) == nodeUUID(f, n) {
+			segSeen++
+			if segSeen != visit {
+				continue
+			}
 			o.HasSeg = true
 			for e := 1; e <= ncats+1; e++ {
 				if string(sg.Exit().UUID()) == exitUUID(f, n, e) {
